@@ -185,6 +185,8 @@ def check(an: Analysis) -> None:
                 elif max(i_ for i_, x in enumerate(names) if x in ("self.trace_id", "self.identifier", "scope")) > min(i_ for i_, x in enumerate(names) if x == "message") and not any(x.brace_template for x in leaves):
                     ob.fail(slog, c, "the message is not prefixed by the scope tag")
                 untrusted = [x for x in leaves if x.name in ("scope", "self.trace_id", "trace_id")]
+                if not has_args and any(x.pct_escaped for x in untrusted):
+                    ob6.fail(slog, c, "the scope name / trace id is %-escaped although no format arguments are passed: logging applies %-formatting only when there are arguments (API_FACT 9), so a scope named 'load 100%' is logged as '[load 100%%]' - the tag is no longer the scope's name")
                 if has_args and any(not x.pct_escaped for x in untrusted):
                     ob6.fail(slog, c, "a `%` in the scope name or trace id corrupts %-formatting when the message has arguments: the line is lost (e.g. scope '100%s done', ctx.log_info('x %s', 'y'))")
                 if any(x.brace_template or x.pct_template for x in untrusted):
@@ -196,6 +198,11 @@ def check(an: Analysis) -> None:
     from . import c03
 
     borrow(an, c03.check, {"C03.3": "C19.7"})
+    from . import c02 as c02_
+
+    # C02.1: leaving a scope restores the metrics scope that was current when it was *entered* (token reset) - the log tag of the
+    # surrounding code is that scope's
+    borrow(an, c02_.check, {"C02.1": "C19.8"}, keep=lambda f: "MetricsContext" in f.at or "MetricsContext" in f.message)
 
 
 class _Leaf:
